@@ -230,7 +230,7 @@ def sm_families(prop):
                                          "sm::v5::in_publish_m2", "sm::v5::in_pubrel_m2", "sm::v5::out_subscribe_m2",
                                          "sm::v5::out_ping_m2", "sm::v5::in_misc_m2", "sm::v5::in_connack_",
                                          "sm::v5::out_publish_m1", "sm::v5::in_puback_m1", "sm::v5::in_pubrec_m1", "sm::v5::in_pubcomp_m1"],
-         "tier": "thorough", "timeout": 2400, "jobs": 1, "mem_gb": 46, "min_harnesses": 4, "playback": False,
+         "tier": "thorough", "timeout": 2400, "jobs": 1, "mem_gb": 46, "min_harnesses": 17, "playback": False,
          "kind": "I (inductive steps of the MQTT 5 client state machine; shared by C02/C07/C10 - every clause asserted, one at a time "
                  "with up to 46 GB: each needs 3-15 min)",
          "bounds": "max_inflight 2 (and max_inflight 1 for outgoing publish, PUBACK, PUBREC, PUBCOMP); arbitrary INV state as for the 3.1.1 client; outgoing publish / subscribe / ping; incoming PUBACK "
